@@ -145,7 +145,7 @@ var c18OddNames = []string{
 }
 
 func c18Profiles() []string {
-	return []string{"small files", "chunk boundaries", "deep nesting", "many siblings", "odd names", "symbolic links", "empty directories", "duplicate contents", "mixed", "sharded directory", "multi-level file", "long names"}
+	return []string{"small files", "chunk boundaries", "deep nesting", "many siblings", "odd names", "symbolic links", "empty directories", "duplicate contents", "mixed", "sharded directory", "multi-level file", "long names", "almost-sharded directory"}
 }
 
 // c18Tree draws the source tree of a profile; the root's name is the source's base name.
@@ -330,6 +330,21 @@ func c18Tree(profile string, seed int64, thorough bool) *tNode {
 				big.add(tDir(nm))
 			default:
 				big.add(tFile(nm, r.Intn(30), r.Int63()))
+			}
+		}
+	case "almost-sharded directory":
+		// as many short-named siblings as fit below the sharding threshold (sum(len(name)+len(cid)) ≤ 256 KiB):
+		// the one directory block is then far larger than a file chunk (≈ 330 KB)
+		n := 5450 + r.Intn(900)
+		for i := 0; i < n; i++ {
+			nm := fmt.Sprintf("%05d", i)
+			switch {
+			case i%997 == 0:
+				root.add(tDir(nm))
+			case i%499 == 0:
+				root.add(tLink(nm, "00001"))
+			default:
+				root.add(tFile(nm, i%3, r.Int63()))
 			}
 		}
 	case "multi-level file":
@@ -644,8 +659,22 @@ func genC18(g *mon.G) {
 		for _, p := range profiles {
 			n := 1
 			switch p {
-			case "multi-level file": // ≈ 45 MiB each: thorough only, a few
-				if !g.Thorough() || i >= 2 {
+			case "multi-level file": // ≈ 45 MiB each: one form in the quick tier, a few trees in the thorough one
+				if i >= g.Pick(1, 2) {
+					n = 0
+				}
+				if n == 1 && !g.Thorough() {
+					g.Emit(c18Desc{Seed: r.Int63(), Profile: p, Version: 2, Form: "wrap"})
+					n = 0
+				}
+			case "almost-sharded directory": // ≈ 6000 entries each
+				if i >= g.Pick(1, 3) {
+					n = 0
+				}
+				if n == 1 && !g.Thorough() {
+					seed := r.Int63()
+					g.Emit(c18Desc{Seed: seed, Profile: p, Version: 2, Form: "no-wrap"})
+					g.Emit(c18Desc{Seed: seed, Profile: p, Version: 1, Form: "wrap"})
 					n = 0
 				}
 			case "sharded directory": // ≈ 1500 entries each
